@@ -10,9 +10,10 @@ REPO = os.environ.get('YAKUSHIMA_REPO', '/repo')
 WORK = os.path.join(VERIF, '.work')
 MEM_KB = int(os.environ.get('Y_MEM_KB', str(10 * 1024 * 1024)))
 
-def sh(cmd, timeout, log, env=None):
+def sh(cmd, timeout, log, env=None, mem_kb=None):
     def lim():
-        resource.setrlimit(resource.RLIMIT_AS, (MEM_KB * 1024, MEM_KB * 1024))
+        m = (mem_kb or MEM_KB) * 1024
+        resource.setrlimit(resource.RLIMIT_AS, (m, m))
     t0 = time.time()
     try:
         p = subprocess.run(cmd, stdout=subprocess.PIPE, stderr=subprocess.STDOUT, timeout=timeout, preexec_fn=lim, env=env)
@@ -105,11 +106,12 @@ def run_job(cpath, job, outdir, tier='quick'):
            '--object-bits', job.get('objbits', '8'), '--json-ui', '--verbosity', '6', '--no-malloc-may-fail', '--drop-unused-functions']
     if job.get('convcheck', '1') != '0': cmd += ['--conversion-check']
     if job.get('unwind'): cmd += ['--unwind', job['unwind'], '--unwinding-assertions']
+    if job.get('unwindset'): cmd += ['--unwindset', job['unwindset'].replace(';', ',')]
     if solver == 'kissat': cmd += ['--external-sat-solver', 'kissat']
     elif solver.startswith('smt:'): cmd += ['--' + solver[4:]]
     elif solver != 'minisat': cmd += ['--sat-solver', solver]
     if job.get('slice', '0') == '1': cmd += ['--slice-formula']
-    rc, out, dt = sh(cmd, timeout, log); res['cmds'].append(' '.join(cmd)); res['seconds'] += dt
+    rc, out, dt = sh(cmd, timeout, log, mem_kb=(int(job['mem']) * 1024 * 1024 if job.get('mem') else None)); res['cmds'].append(' '.join(cmd)); res['seconds'] += dt
     if rc == -9:
         res['status'] = 'timeout'; res['detail'] = f'cbmc exceeded {timeout}s'; return res
     try:
